@@ -180,7 +180,11 @@ PROP_UNITS = {
 
 TF_VERUS = dict(builder="threefish", expect_min=4, tier="quick", second_route_exists=True,
                 funcs="Verus on the bodies of Threefish{256,512,1024}::{encrypt_block, decrypt_block} (word-level cores), mix, inv_mix, extracted from rustc's macro expansion of /repo, unrolled and no_unroll, with loop invariants against the Skein 1.3 specification functions")
+HIST_VERUS = dict(file="verus/history.rs", expect_min=5, tier="quick",
+                  funcs="spec-level: abstract machine of the per-call contracts (position in range, re-chunking invariance, apply twice restores, failed calls are no-ops, output depends only on the absolute position)")
 PROP_VERUS = {
+    "C02": [HIST_VERUS],
+    "C11": [HIST_VERUS],
     "C08": [dict(file="verus/chunking.rs", expect_min=8, tier="quick",
                  funcs="spec-level induction over the call history: the per-call update contract (eager and lazy buffering) makes the stream view grow by exactly the bytes given, the representation is a function of the stream view, hence partition invariance")],
     "C17": [dict(builder="blake_increase_count", expect_min=4, tier="quick", second_route_exists=True,
